@@ -14,6 +14,7 @@ type WCase struct {
 	Ops    []Op       `json:"ops"`
 	Ops2   []Op       `json:"ops2,omitempty"`
 	FailAt int        `json:"fail_at,omitempty"`
+	Once   bool       `json:"fail_once,omitempty"` // the destination fails at that call only
 }
 
 // F-STD-dict-stored-block: compress/flate (go1.23) NewWriterDict leaves blockStart at 0 after
